@@ -367,6 +367,10 @@ def case_dates(orig_txns, entries, n_dates=9):
     return sorted(ds[:n_dates])
 
 
+def inv_combos_all(dates):
+    return [(op, cl) for op in dates for cl in dates if cl < op]
+
+
 def position_class(d, tds):
     if d is None:
         return 'absent'
@@ -668,6 +672,75 @@ def work_ledger(arg):
                                                  f'have {len(w)}')
             except Exception as e:  # noqa: BLE001
                 viol('exception:' + impl.exc_class(e), stmt, f'{impl.exc_class(e)}: {e}')
+        # nested statements: a SELECT with its own FROM clause as right operand of IN / NOT IN inside a
+        # query with its own FROM clause: the nested FROM presents the ledger according to ITS clauses only,
+        # so the statement returns the outer rows filtered by the stand-alone inner result
+        def shape(c):
+            return ('O' if c[0] else '-') + ('c' if c[1] == 'ALL' else 'C' if c[1] else '-') + ('R' if c[2] else '-')
+        by_shape = {}
+        for c in valid:
+            by_shape.setdefault(shape(c), []).append(c)
+        shapes = sorted(by_shape)
+        flat = lambda ts: [(t['date'], t['flag'], t['narr']) + p[:4] for t in ts for p in t['posts']]
+        n_nested = 2 * n_extra + 8
+        for k in range(n_nested if valid else 0):
+            outer = rng.choice(by_shape[rng.choice(shapes)])
+            inner = rng.choice(by_shape[rng.choice(shapes)])
+            flt = rng.choice(FILTERS) if (shape(inner) == '---' or rng.random() < 0.5) else None
+            neg = rng.random() < 0.4
+            ofc = from_clause(d_iso(outer[0]), d_iso(outer[1]), outer[2])
+            ifc = from_clause(d_iso(inner[0]), d_iso(inner[1]), inner[2], flt)
+            stmt = f'{ROWS_SELECT} {ofc} WHERE account {"NOT " if neg else ""}IN (SELECT account {ifc})'
+            clause = [[d_iso(x) if not isinstance(x, bool) else x for x in outer],
+                      [d_iso(x) if not isinstance(x, bool) else x for x in inner]]
+            res['stmts'] += 2
+            bump('nested', shape(outer) + ' / ' + shape(inner) + (' +expr' if flt else ''))
+            bump('kind', 'nested NOT IN' if neg else 'nested IN')
+            st0, inner_rows = run_statement(conn, f'SELECT DISTINCT account {ifc}')
+            st, rows = run_statement(conn, stmt)
+            if st0 != 'ok' or st != 'ok':
+                bad_ = rows if st != 'ok' else inner_rows
+                res['violations'].append({'law': 'exception:' + bad_[0], 'stmt': stmt, 'msg': f'{bad_[0]}: {bad_[1]}',
+                                          'clause': clause})
+                continue
+            accts = {r[0] for r in inner_rows}
+            # the stand-alone inner statement itself agrees with the plain rows of its clause combination
+            want_accts = {p[0] for t in base[inner] if flt is None or flt[1](t) for p in t['posts']}
+            got_rows = [(e_.date, e_.flag, e_.narration, a_, pos.units.number, pos.units.currency, cost_t(pos.cost))
+                        for (e_, a_, pos) in rows]
+            # query_compile.EvalConstantSubquery1D: "Subqueries not returning any row are treated as NULL", so both
+            # `x IN (empty)` and `x NOT IN (empty)` are NULL and select nothing (operator semantics, not C13's subject)
+            want_rows = [r for r in flat(base[outer]) if (r[3] in accts) != neg] if accts else []
+            bump('nested_inner_result', 'empty' if not accts else 'non-empty')
+            if accts != want_accts:
+                res['violations'].append({'law': 'nested-inner-standalone', 'stmt': f'SELECT DISTINCT account {ifc}',
+                                          'msg': f'accounts {sorted(accts)} differ from those of the plain rows {sorted(want_accts)}',
+                                          'clause': clause})
+            elif got_rows != want_rows:
+                res['violations'].append({
+                    'law': 'nested-from-independent', 'stmt': stmt,
+                    'msg': f'returns {len(got_rows)} rows; the rows of `{ROWS_SELECT} {ofc}` whose account is '
+                           f'{"not " if neg else ""}in the result of the stand-alone `SELECT DISTINCT account {ifc}` '
+                           f'({len(accts)} accounts) are {len(want_rows)}',
+                    'clause': clause})
+        # CLOSE before OPEN inside a nested FROM clause is rejected whatever the outer clauses are; an inner OPEN
+        # after the OUTER close date is not (covered above: the two FROM clauses are independent)
+        for (op, cl) in rng.sample(inv_combos_all(dates), min(4, len(inv_combos_all(dates)))):
+            outer = rng.choice(valid) if valid else (None, None, False)
+            ofc = from_clause(d_iso(outer[0]), d_iso(outer[1]), outer[2])
+            stmt = (f'SELECT account {ofc} WHERE account {rng.choice(["IN", "NOT IN"])} '
+                    f'(SELECT account {from_clause(d_iso(op), d_iso(cl), rng.random() < 0.5)})')
+            res['stmts'] += 1
+            bump('kind', 'invalid-order:nested')
+            try:
+                conn.compile(conn.parse(stmt))
+                res['violations'].append({'law': 'close-before-open-accepted', 'stmt': stmt,
+                                          'msg': 'CLOSE date before OPEN date in a nested FROM clause was not rejected',
+                                          'clause': [d_iso(op), d_iso(cl), False]})
+            except Exception as e:  # noqa: BLE001
+                if impl.exc_class(e) != 'CompilationError':
+                    res['violations'].append({'law': 'exception:' + impl.exc_class(e), 'stmt': stmt,
+                                              'msg': f'{impl.exc_class(e)}: {e}', 'clause': [d_iso(op), d_iso(cl), False]})
         # invalid date order for the other statement kinds
         inv_combos = [(op, cl) for op in dates for cl in dates if cl < op]
         for (op, cl) in rng.sample(inv_combos, min(3, len(inv_combos))):
@@ -1031,7 +1104,8 @@ def run(tier, rng):
                 '(OPEN date or none) x (no CLOSE, CLOSE, CLOSE ON date) x CLEAR over up to 9 dates (before/after the span, entry dates, '
                 'day after, directive end) incl. CLOSE before OPEN; per combination the posting rows are checked against the '
                 'conservation laws (independent fold over the original entries) and compared with the Coq model; on a sample: '
-                '2 FROM filters, aggregated SELECT, BALANCES [AT cost], JOURNAL, PRINT [filter]; non-trivial = combination '
+                '2 FROM filters, aggregated SELECT, BALANCES [AT cost], JOURNAL, PRINT [filter]; nested statements `<outer FROM> WHERE account [NOT] IN (SELECT account <inner FROM>)` with outer and inner clause shapes drawn uniformly from all 12 x 12 (inner optionally with an expression) '
+                'must return the outer rows filtered by the stand-alone inner result, and CLOSE before OPEN inside the nested FROM is rejected; non-trivial = combination '
                 'whose result contains generated (S/T/C) entries',
         'samples': [c['stmt'] for c in results[0]['cases'][40:44]] + [render(ledgers[3])[:700]],
         'traces_validated_against_impl': n_cases,
